@@ -117,6 +117,7 @@ func (k Keeper) SendClaimTx(
 			ctx.Logger().
 				Error(fmt.Sprintf("an error occurred creating the claim transaction with app %s not found with evidence %v", evidence.ApplicationPubKey, evidence))
 		}
+		pc.SimYield("claim/before-seal")
 		// generate the merkle root for this evidence
 		root := evidence.GenerateMerkleRoot(
 			evidence.SessionHeader.SessionBlockHeight,
